@@ -803,6 +803,8 @@ class SshHostCertificateV00Base(ParsableBase, SshCertificateBase):  # pylint: di
         parser.parse_parsable('valid_principals', SshCertValidPrincipals)
 
         parser.parse_timestamp('valid_after')
+        if parser['valid_after'] is None:
+            raise InvalidValue(2 ** 64 - 1, cls, 'valid_after')
         parser.parse_timestamp('valid_before')
 
         parser.parse_parsable('constraints', SshCertConstraintVector)
@@ -974,6 +976,8 @@ class SshHostCertificateV01Base(ParsableBase, SshCertificateBase):  # pylint: di
         parser.parse_parsable('valid_principals', SshCertValidPrincipals)
 
         parser.parse_timestamp('valid_after')
+        if parser['valid_after'] is None:
+            raise InvalidValue(2 ** 64 - 1, cls, 'valid_after')
         parser.parse_timestamp('valid_before')
 
         parser.parse_parsable('critical_options', SshCertCriticalOptionVector)
